@@ -56,6 +56,14 @@ pub fn panic_guard(ctx: &mut Ctx, res: &CallResult, what: &str) -> bool {
 /// common prologue after every judged call; false = stop
 pub fn after_call(ctx: &mut Ctx, res: &CallResult, what: &str, props: &[&'static str]) -> bool {
     ctx.trace_str(res.out.class());
+    if let Some(m) = &res.auth_demand_mismatch {
+        // AuthVar::Everyone: the authorisation a principal was asked for must be the call as made
+        let mut tags: Vec<&'static str> = vec!["C07", "C06"];
+        tags.extend(props.iter().copied().filter(|p| *p != "C07" && *p != "C06"));
+        if !ctx.check(false, &tags, "auth/demanded-authorisation-does-not-bind-the-call", || m.clone()) {
+            return false;
+        }
+    }
     panic_guard(ctx, res, what) && note_abort(ctx, res, props)
 }
 
